@@ -6,6 +6,8 @@ entitlement `r_i·a/S` is at least `r_i/10^18 + 2` units of each asset: the tran
 whatever the reserves and supply are, i.e. whatever other actors did before.
 `a ≤ S` is cw20-base's own conservation (a balance never exceeds the total supply); balances are
 128-bit on the real ledger, which the unbounded model records as hypotheses.
+`hvalid`: the holder's address passes `addr_validate` — the pair validates the cw20 sender of `WithdrawLiquidity`
+(`deps.api.addr_validate(cw20_msg.sender.as_str())?`); on a chain every account that can sign has a valid address.
 -/
 import Halo.Proofs.Liquidity
 
@@ -13,7 +15,7 @@ namespace Halo.Props.C20
 open Halo
 
 theorem withdraw_live {w : World} {p h a : Nat} {P : PairSt}
-    (hP : w.pair p = some P) (hhp : h ≠ p)
+    (hP : w.pair p = some P) (hhp : h ≠ p) (hvalid : w.badAddr h = false)
     (hne : P.a0 ≠ P.a1) (hl0 : P.a0 ≠ .token P.lp) (hl1 : P.a1 ≠ .token P.lp)
     (hlp : (w.tok P.lp).isSome)
     (ht0 : ∀ t, P.a0 = .token t → (w.tok t).isSome) (ht1 : ∀ t, P.a1 = .token t → (w.tok t).isSome)
@@ -22,7 +24,7 @@ theorem withdraw_live {w : World} {p h a : Nat} {P : PairSt}
     (hent0 : (bal w P.a0 p + 2 * E) * supply w P.lp ≤ bal w P.a0 p * a * E)
     (hent1 : (bal w P.a1 p + 2 * E) * supply w P.lp ≤ bal w P.a1 p * a * E) :
     ∃ w' x0 x1, tokSendPair w P.lp h p a .withdraw = .ok (w', .withdraw x0 x1) ∧ 2 ≤ x0 ∧ 2 ≤ x1 :=
-  Halo.Liquidity.withdraw_live hP hhp hne hl0 hl1 hlp ht0 ht1 ha1 hab haS hr0 hr1 hSW hent0 hent1
+  Halo.Liquidity.withdraw_live hP hhp hvalid hne hl0 hl1 hlp ht0 ht1 ha1 hab haS hr0 hr1 hSW hent0 hent1
 
 /-- the supply bound used above is an invariant of the token ledger: for every duplicate-free list of
 accounts the balances sum to at most the supply, and every ledger primitive preserves this -/
